@@ -125,7 +125,7 @@ def extract_facts(ctx):
     if not os.path.exists(os.path.join(BIN, "extract")) or os.environ.get("VERIF_REBUILD_EXTRACT", "1") == "1":
         build_extract()
     with Lock("facts-" + ctx.pid):
-        rc, out = sh([os.path.join(BIN, "extract"), "-repo", REPO, ctx.pid])
+        rc, out = sh([os.path.join(BIN, "extract"), "-repo", REPO, "-out", os.path.join(LEAN, "Hv", "Generated"), ctx.pid])
     facts, where, errs = {}, {}, []
     for line in out.splitlines():
         if line.startswith("FACTS "):
